@@ -3,6 +3,9 @@ PROP = dict(
     libs=["explore", "canon", "sim", "wireobs", "wiremon"],
     targets=[
         dict(name="e2", pkg=".", test="TestVerifC17", files=["mc/c17/*.go"], parts=["close-fanout"]),
+        dict(name="e3", pkg=".", test="TestVerifC17E3", files=["mc/c17/e3/*.go"], parts=["e3-datagram-queue"],
+             libs=["explore", "canon", "sched", "vsync"], shards=1, gomaxprocs=0, env={},
+             rewrite={"datagram_queue.go": [('"sync"', 'sync "github.com/refraction-networking/uquic/internal/verifmc/vsync"')]}),
         dict(name="race", pkg=".", test="TestVerifC17Race", files=["mc/c17/*.go", "mc/c17/race/*.go"], parts=["close-fanout-race"],
              race=True, shards=4, gomaxprocs=4, env={"GORACE": "halt_on_error=1", "GODEBUG": "randseednop=0"}),
     ],
